@@ -413,6 +413,9 @@ func cmdWasm(args []string) {
 						wrote = true
 					}
 					limit := 60 * time.Second
+					if start > 0 {
+						limit = 20 * time.Second // a resumed process: the first one has shown that the module loads
+					}
 					if wrote {
 						limit = 12 * time.Second
 					}
